@@ -253,3 +253,13 @@ Example ex_channel :
                  (chan0 fsA (init 1 [97; 98] 1024) [72; 13; 10; 13; 10]) in
   c_wire st = [72; 13; 10; 13; 10] ++ encode_open [[97; 98]; [99; 100]] /\ c_out st = [] /\ c_hdr st = [].
 Proof. vm_compute. repeat split. Qed.
+
+(* the response stays open through maintenance: a channel that sent or received
+   anything within the timeout survives kill_zombies, however old it is *)
+Theorem active_channel_survives now tmo last_used :
+  now - last_used <= tmo -> survives now tmo last_used = true.
+Proof. unfold survives. intro H. destruct (now - last_used >? tmo) eqn:E; [lia | reflexivity]. Qed.
+
+Theorem idle_channel_closed now tmo last_used :
+  now - last_used > tmo -> survives now tmo last_used = false.
+Proof. unfold survives. intro H. destruct (now - last_used >? tmo) eqn:E; [reflexivity | lia]. Qed.
